@@ -328,6 +328,18 @@ func main() {
 	}
 	killMrp("start")
 	fault := rule.Fail
+	if (fault == "missing_key" || fault == "wrong_type") && phase != "split" {
+		owed := st.Outs
+		if phase == "main" && st.Split {
+			owed = st.ChunkOuts
+		}
+		if len(owed) == 0 {
+			fault = "" // nothing this phase must produce: the fault does not exist here
+		}
+	}
+	if (fault == "missing_key" || fault == "wrong_type") && phase == "split" {
+		fault = "bad_stage_defs"
+	}
 	if fault != "" {
 		emit(&event{Ev: "fault", Stage: stage, Phase: phase, Job: job, Fault: fault, Attempt: attempt})
 	}
@@ -475,14 +487,20 @@ func main() {
 			gen(st.ChunkOuts, rng, "", outs)
 		}
 		gen(st.Outs, rng, "", outs)
+		// The outputs this phase is obliged to produce: a chunk of a
+		// splitting stage owes the chunk outs, not the stage outs.
+		owed := st.Outs
+		if phase == "main" && st.Split {
+			owed = st.ChunkOuts
+		}
 		switch fault {
 		case "missing_key":
-			for _, p := range st.Outs {
+			for _, p := range owed {
 				delete(outs, p.Name)
 				break
 			}
 		case "wrong_type":
-			for _, p := range st.Outs {
+			for _, p := range owed {
 				switch p.Type.K {
 				case "int", "float", "bool":
 					outs[p.Name] = "not a number"
